@@ -11,7 +11,7 @@ PROP = "C08"
 # the all-prompt timing bound (ants_get2_bound_all_prompt) is proved in its own files
 PROOFS = ac.PROOFS + ["proofs/AntsPromptProofs.v", "models/AntsPrompt.v", "proofs/AntsOptionsProofs.v", "models/AntsOptions.v"]
 KINDS_QUICK = [("all-prompt", "prompt", 2400), ("non-cooperative(K1-class)", "stubborn", 1200), ("burst-busy", "burst", 1200),
-               ("retry-outcomes", "retry", 400),
+               ("retry-outcomes", "retry", 400), ("sub-millisecond-timeouts", "tinyT", 300),
                # several pools in one process, literal option lists (defaults omitted, non-positive values): ants_mp.py
                ("multi-pool-option-lists(all-prompt)", "mp:prompt", 500), ("multi-pool-option-lists", "mp:mixed", 300)]
 
